@@ -27,9 +27,9 @@ func (p c10prog) String() string { return fmt.Sprintf("reader=%v writer=%v", p.r
 
 // per-thread result slots: each thread writes only its own slot (no shared harness state between managed threads)
 type c10slot struct {
-	torn  []string
+	torn   []string
 	noResp int
-	_pad  [64]byte
+	_pad   [64]byte
 }
 
 var c10slots [2]c10slot
@@ -169,6 +169,9 @@ func c10races(text string) []string {
 	return out
 }
 
+// executions per program and shard of the bound-2 pass of the thorough tier (16 shards)
+const c10ThoroughExecsPerShard = 100
+
 func TestC10(t *testing.T) {
 	rigSetup()
 	logs := &logCap{}
@@ -240,55 +243,67 @@ func TestC10(t *testing.T) {
 				}
 				return true
 			}
-			e := &vrt.Explorer{Body: body, Stop: r.OutOfTime}
-			e.Shard, e.ShardN = r.Shard()
-			e.Cfg = vrt.Config{Bound: bound, Sites: true, NoPreempt: noPre, StepCap: 300000, EnvIdle: true}
-			e.Check = func(x *vrt.Exec) {
-				r.Eval(1)
-				if x.Cost > 0 {
-					r.Nontrivial(fmt.Sprintf("%d/%v", pi, x.Choices()))
+			// thorough tier: every program first with bound 1 in full (= the quick tier's coverage of it), then with
+			// bound 2 up to a fixed number of executions per shard. A time budget alone made the set of programs
+			// reached - and with it the set of known-finding signatures - depend on the speed of the machine.
+			passes := []int{bound}
+			if bound > 1 {
+				passes = []int{1, bound}
+			}
+			for _, passBound := range passes {
+				e := &vrt.Explorer{Body: body, Stop: r.OutOfTime}
+				e.Shard, e.ShardN = r.Shard()
+				e.Cfg = vrt.Config{Bound: passBound, Sites: true, NoPreempt: noPre, StepCap: 300000, EnvIdle: true}
+				if passBound > 1 {
+					e.MaxExecs = c10ThoroughExecsPerShard
 				}
-				cs := map[string]any{"program": pr.String(), "schedule": x.Choices(), "preemptions": x.Cost}
-				cls := strings.Join(pr.reader, "+") + "||" + strings.Join(pr.writer, "+")
-				if x.Deadlock {
-					r.Count("nonterminating_schedules", 1)
-				}
-				for _, pn := range x.Panics {
-					r.Fail("concurrency", "thread-panic:"+cls, pn, cs)
-				}
-				for si := range c10slots {
-					for _, tn := range c10slots[si].torn {
-						r.Fail("concurrency", "torn-read:"+cls, fmt.Sprintf("program %s: %s is not a committed version of key a", pr, tn), cs)
+				e.Check = func(x *vrt.Exec) {
+					r.Eval(1)
+					if x.Cost > 0 {
+						r.Nontrivial(fmt.Sprintf("%d/%v", pi, x.Choices()))
 					}
-					if c10slots[si].noResp > 0 {
-						r.Fail("concurrency", "request-without-response:"+cls, fmt.Sprintf("program %s: a request returned neither a response nor an error (recovered panic): %v", pr, logs.take()), cs)
+					cs := map[string]any{"program": pr.String(), "schedule": x.Choices(), "preemptions": x.Cost}
+					cls := strings.Join(pr.reader, "+") + "||" + strings.Join(pr.writer, "+")
+					if x.Deadlock {
+						r.Count("nonterminating_schedules", 1)
 					}
-				}
-				if logPath != "" {
-					if b, err := os.ReadFile(logPath); err == nil && int64(len(b)) > seenLen {
-						text := string(b[seenLen:])
-						seenLen = int64(len(b))
-						for _, rc := range c10races(text) {
-							if strings.Contains(rc, "(outside hydraide)") {
-								r.Count("race_reports_outside_hydraide", 1)
-								continue
-							}
-							cs2 := map[string]any{"program": pr.String(), "schedule": x.Choices(), "report": text[:min(len(text), 6000)]}
-							r.Fail("race", "data-race:"+rc, fmt.Sprintf("program %s, schedule with %d preemptions: the race detector reports unsynchronised accesses in %s", pr, x.Cost, rc), cs2)
+					for _, pn := range x.Panics {
+						r.Fail("concurrency", "thread-panic:"+cls, pn, cs)
+					}
+					for si := range c10slots {
+						for _, tn := range c10slots[si].torn {
+							r.Fail("concurrency", "torn-read:"+cls, fmt.Sprintf("program %s: %s is not a committed version of key a", pr, tn), cs)
+						}
+						if c10slots[si].noResp > 0 {
+							r.Fail("concurrency", "request-without-response:"+cls, fmt.Sprintf("program %s: a request returned neither a response nor an error (recovered panic): %v", pr, logs.take()), cs)
 						}
 					}
+					if logPath != "" {
+						if b, err := os.ReadFile(logPath); err == nil && int64(len(b)) > seenLen {
+							text := string(b[seenLen:])
+							seenLen = int64(len(b))
+							for _, rc := range c10races(text) {
+								if strings.Contains(rc, "(outside hydraide)") {
+									r.Count("race_reports_outside_hydraide", 1)
+									continue
+								}
+								cs2 := map[string]any{"program": pr.String(), "schedule": x.Choices(), "report": text[:min(len(text), 6000)]}
+								r.Fail("race", "data-race:"+rc, fmt.Sprintf("program %s, schedule with %d preemptions: the race detector reports unsynchronised accesses in %s", pr, x.Cost, rc), cs2)
+							}
+						}
+					}
+					r.Outcome(fmt.Sprintf("%d|%d|%d", pi, len(c10slots[0].torn), c10slots[0].noResp+c10slots[1].noResp))
 				}
-				r.Outcome(fmt.Sprintf("%d|%d|%d", pi, len(c10slots[0].torn), c10slots[0].noResp+c10slots[1].noResp))
-			}
-			e.Run()
-			r.Count("executions", int64(e.Stats.Execs))
-			r.SetMax("max_points_per_execution", int64(e.Stats.MaxPoints))
-			if e.Stats.Capped {
-				r.NotExhaustive(fmt.Sprintf("program %s capped after %d executions", pr, e.Stats.Execs))
-			}
-			if pi == 0 {
-				if sh, _ := r.Shard(); sh == 0 {
-					r.Sample(map[string]any{"program": pr.String(), "executions": e.Stats.Execs, "race_log": logPath})
+				e.Run()
+				r.Count("executions", int64(e.Stats.Execs))
+				r.SetMax("max_points_per_execution", int64(e.Stats.MaxPoints))
+				if e.Stats.Capped {
+					r.NotExhaustive(fmt.Sprintf("program %s bound %d capped after %d executions", pr, passBound, e.Stats.Execs))
+				}
+				if pi == 0 {
+					if sh, _ := r.Shard(); sh == 0 {
+						r.Sample(map[string]any{"program": pr.String(), "bound": passBound, "executions": e.Stats.Execs, "race_log": logPath})
+					}
 				}
 			}
 		}
